@@ -21,7 +21,7 @@ func init() {
 		Assume: []string{"writers in the concurrent sub-workload only add cells, so that GC(M_final) <= final is implied by the statement for every pass instant", "the activity sub-workload uses no constant from the code: 'in use' = touched at most 1 s of wall clock ago"},
 		Run:    runC16,
 	})
-	expectedProbes["C16"] = []string{"c16.condemned", "c16.many_rows_pass", "c16.round_skipped_table_used_during_round", "c16.boundary_cell", "c16.write_inside_pass", "c16.active_table_skipped", "c16.touched_after_long_idle", "c16.rows_wholly_condemned", "c16.rule_relaxed_and_rows_written_during_pass", "c16.round_with_concurrent_schema_changes", "c16.server_clock_skewed", "c16.idle_table_collected", "c16.union", "c16.intersection_untouched"}
+	expectedProbes["C16"] = []string{"c16.condemned", "c16.many_rows_pass", "c16.round_skipped_table_used_during_round", "c16.boundary_cell", "c16.write_inside_pass", "c16.active_table_skipped", "c16.touched_after_long_idle", "c16.rows_wholly_condemned", "c16.rule_relaxed_and_rows_written_during_pass", "c16.round_with_concurrent_schema_changes", "c16.pass_attempted_during_a_scan", "c16.server_clock_skewed", "c16.idle_table_collected", "c16.union", "c16.intersection_untouched"}
 }
 
 func c16Rule(d *draws) *btapb.GcRule {
@@ -87,7 +87,81 @@ func runC16(r *Run) {
 	case 3:
 		c16Loop(r, cfg)
 	default:
+		if r.Index%4 == 2 && (r.Index/4)%3 == 0 {
+			c16ScanInProgress(r, cfg)
+			return
+		}
 		c16Activity(r, cfg)
+	}
+}
+
+// c16ScanInProgress: a table that was idle for hours is being scanned; the scan spans several
+// response messages (the table lock is free while a message is sent). A non-forced pass is
+// attempted while the client is still reading: the table is in active use, nothing may be collected
+// before the scan is over.
+func c16ScanInProgress(r *Run, cfg *Stream) {
+	engine := []string{engLdbMem, engLdbDisk, engBtree}[cfg.Intn(3)]
+	d := record(r.T.S("prog.0"), 16)
+	rule := &btapb.GcRule{Rule: &btapb.GcRule_MaxNumVersions{MaxNumVersions: 1}}
+	clk := NewClock(1_700_000_000_000_000, 1_700_000_000_000_000_000)
+	w := NewBTWorld(r, engine, clk, "")
+	defer w.Destroy()
+	if !c16Setup(r, w, map[string]*btapb.GcRule{"f1": rule}) {
+		return
+	}
+	nRows := 40 + d.n(40)
+	var entries []entryIn
+	for i := 0; i < nRows; i++ {
+		var muts mutList
+		for c := 0; c < 30; c++ {
+			muts = append(muts, setCell("f1", fmt.Sprintf("q%02d", c), 1000, "old"), setCell("f1", fmt.Sprintf("q%02d", c), 2000, "new"))
+		}
+		entries = append(entries, entryIn{Key: fmt.Sprintf("row%03d", i), Muts: muts})
+	}
+	if !c16Write(r, w, c16Tbl, entries) {
+		return
+	}
+	idle := int64(6+d.n(72)) * 3600 * 1e9
+	clk.WallNs += idle
+	r.SimWallNs += idle
+	at := d.n(3)
+	attempted := false
+	w.SendGate = func(n int) {
+		if n != at || attempted {
+			return
+		}
+		attempted = true
+		short := int64(1+d.n(1000)) * 1e6
+		clk.WallNs += short
+		r.SimWallNs += short
+		w.GC(c16Tbl, false) // the loop's non-forced pass, while the client is still reading
+	}
+	res := w.ReadAll(c16Tbl)
+	w.SendGate = nil
+	r.Sample = map[string]interface{}{"mode": "scan-in-progress", "engine": engine, "rows": nRows, "messages": res.Msgs, "pass_attempted_at_message": at}
+	r.Mix(fmt.Sprintf("scan-in-progress%d", res.Msgs))
+	if res.Err != nil || res.Bad != nil {
+		r.Fail("read-failed", "", "%v %v", res.Err, res.Bad)
+		return
+	}
+	if !attempted {
+		return // the scan had fewer messages than drawn
+	}
+	r.Probe("c16.pass_attempted_during_a_scan")
+	r.nontrivial = true
+	// what the scan delivered after the attempt, and what is stored now, still has both versions
+	after := w.ReadAll(c16Tbl)
+	for _, rows := range [][]ORow{res.Rows, after.Rows} {
+		if len(rows) != nRows {
+			r.Fail("gc-on-active-table", "", "a non-forced pass attempted while a scan of the table was in progress (message %d of %d): %d rows instead of %d", at, res.Msgs, len(rows), nRows)
+			return
+		}
+		for _, row := range rows {
+			if len(row.Cells) != 60 {
+				r.Fail("gc-on-active-table", "", "the table had been idle for %d h when a client began to scan it; a non-forced pass attempted while the scan was between its messages %d and %d (of %d) collected cells: row %q has %d of 60 cells", idle/3600e9, at, at+1, res.Msgs, row.Key, len(row.Cells))
+				return
+			}
+		}
 	}
 }
 
